@@ -884,6 +884,13 @@ func (e *rxEnv) addEnvHook() { e.ch.RegisterEnvChangeHooks(e.envHook()) }
 func (e *rxEnv) round(spec string) string {
 	var seen []string
 	idx := 0
+	// cfail<j>: as fail<j>, but the consumer's context ends before its callback returns the error (a statement
+	// timeout): the rest of the response, already received, is consumed all the same
+	cancelFirst := strings.HasPrefix(spec, "cfail")
+	if cancelFirst {
+		spec = spec[1:]
+	}
+	var cancelRound context.CancelFunc
 	var cb func(tds.Package) (bool, error)
 	if spec != "nil" {
 		cb = func(pkg tds.Package) (bool, error) {
@@ -905,6 +912,9 @@ func (e *rxEnv) round(spec string) string {
 				}
 			case strings.HasPrefix(spec, "fail"):
 				j, _ = strconv.Atoi(spec[4:])
+				if idx == j && cancelFirst && cancelRound != nil {
+					cancelRound()
+				}
 				if idx == j {
 					// the callback's error in the shapes errors come in: the sentinel itself, wrapped with %w, joined
 					// with another error, or a type that matches through its own Is method — errors.Is(result,
@@ -934,6 +944,7 @@ func (e *rxEnv) round(spec string) string {
 		}
 	}
 	ctx, cancel := context.WithTimeout(context.Background(), 150*time.Millisecond)
+	cancelRound = cancel
 	pkg, err := e.ch.NextPackageUntil(ctx, true, cb)
 	cancel()
 	res := ""
@@ -1172,7 +1183,14 @@ func directLine(line string) string {
 	case strings.HasPrefix(line, "rxr "):
 		return "rx " + line[4:]
 	case strings.HasPrefix(line, "user "):
-		return "use " + line[5:]
+		line = "use " + line[5:]
+	}
+	if strings.HasPrefix(line, "use ") && strings.Contains(line, "cfail") {
+		f := strings.Fields(line)
+		if len(f) > 3 {
+			f[3] = strings.ReplaceAll(f[3], "cfail", "fail") // the same round to the specification
+			line = strings.Join(f, " ")
+		}
 	}
 	return line
 }
